@@ -114,7 +114,8 @@ def enc(op):
 
 def values_for(rng, name):
     if name == 'data':
-        return rng.choice([(), (1, 2), [0, 127], [128], [-1], b'\x01\x02', 'ab', 5, None, [1.5], (1, 'a'), [True]] + WRONG)
+        return rng.choice([(), (1, 2), [0, 127], [128], [-1], b'\x01\x02', 'ab', 5, None, [1.5], (1, 'a'), [True],
+                           [1, 1.0], [7, 2, 7.0], (0, 0.0), [3, 3, 3.0], [1.0, 1], [127, 127.0]] + WRONG)
     if name == 'time':
         return rng.choice([0, 1, -5, 2.5, 10 ** 20, 'x', None, [1], True])
     if name in msgs.RANGES:
